@@ -104,6 +104,8 @@ func runC18(c *Ctx) {
 		R.Ob("(*Client).Reset/clears rcpts", c.P.Pos(f.Pos()), len(s.Find(f, "st:Client.rcpts=nil")) >= 1, "Reset no longer clears the recipient list")
 	}
 
+	R.Rule("R-client-parse", "E4 + who-may-call", "every per-recipient reply that does not match the expected code reaches Close as an *SMTPError (whatever its class), so Close can attribute it and go on to the next recipient", 4)
+	ruleClientParse(c)
 	R.Rule("R-lmtp-loop", "E4+E6", "the LMTP reply loop counts down from len(rcpts) by one, reads one reply per iteration, attributes it to rcpts[len-remaining] and calls the callback at most once per iteration", 5)
 	// which end-of-data exchange runs is decided by the client's protocol (Client.lmtp), whoever created the writer
 	if f := c.A.Func("(*dataCloser).Close"); f != nil {
